@@ -7,25 +7,33 @@ Open Scope N_scope.
 
 (* ---- TCP ---- *)
 (* proved reachable: every conforming packet outside the known traffic classes gets an admissible label *)
-Definition live_tcp_lines : list N := [96; 97; 100; 101; 102; 103; 110; 111; 112; 115; 116; 117; 122; 123; 124; 133; 134; 137; 138; 141; 144; 149; 152; 153; 160; 163; 166; 169; 194; 199; 200; 215; 216; 273; 280; 353; 354; 376; 377; 378; 379; 388; 389; 390; 391; 394; 395; 396; 397; 491; 493; 497; 500; 501; 503; 507; 510; 511; 513; 535; 542].
+Definition live_tcp_lines : list N := [96; 97; 100; 101; 102; 103; 110; 111; 112; 115; 116; 117; 122; 123; 124; 133; 134; 137; 138; 141; 144; 149; 152; 153; 160; 163; 166; 169; 194; 199; 200; 215; 216; 273; 280; 314; 315; 316; 317; 318; 319; 353; 354; 376; 377; 378; 379; 388; 389; 390; 391; 394; 395; 396; 397; 491; 493; 497; 500; 501; 503; 507; 510; 511; 513; 535; 542].
+(* proved reachable at distance 1 (scale `0` written for a layout without `ws`; certificate Spec/ReachMinSpec.v live1_cert) *)
+Definition live1_tcp_lines : list N := [127; 172; 290; 344; 372; 373; 374; 375; 382; 383; 384; 385; 490; 492; 496; 498; 499; 502; 506; 508; 509; 512; 534; 543].
 (* dead, class DeadBadTtl: `NN-` signatures; an observed TTL is never of the form Bad unless it is 0 *)
-Definition dead_bad_ttl_lines : list N := [305; 306; 307; 308; 312; 313; 314; 315; 316; 317; 318; 319].
+Definition dead_bad_ttl_lines : list N := [].
 (* dead, class DeadValueWindow: a literal window that the extractor re-expresses as mss*k / %n / mtu*k for some MSS *)
-Definition dead_value_window_lines : list N := [128; 154; 155; 179; 180; 181; 182; 183; 186; 187; 188; 189; 192; 193; 205; 206; 207; 208; 211; 212; 245; 248; 253; 260; 263; 270; 283; 297; 347; 350; 404; 405; 406; 407; 408; 409; 410; 411; 413; 414; 415; 416; 417; 418; 419; 420; 423; 424; 425; 426; 427; 428; 429; 430; 437; 438; 440; 443; 444; 446; 449; 451; 458; 459; 460; 461; 462; 463; 464; 474; 476; 478; 520; 521; 522; 523; 524; 525; 526; 527].
+Definition dead_value_window_lines : list N := [128; 154; 155; 179; 180; 181; 182; 183; 186; 187; 188; 189; 192; 193; 205; 206; 207; 208; 211; 212; 245; 248; 253; 260; 263; 270; 283; 297; 305; 306; 307; 308; 312; 347; 350; 404; 405; 406; 407; 408; 409; 410; 411; 413; 414; 415; 416; 417; 418; 419; 420; 423; 424; 425; 426; 427; 428; 429; 430; 437; 438; 440; 443; 444; 446; 449; 451; 458; 459; 460; 461; 462; 463; 464; 474; 476; 478; 520; 521; 522; 523; 524; 525; 526; 527].
 (* dead, class DeadEolPad: layouts with `eol+n`, n >= 1 (rendered as a chain eol+n,..,eol+0: C03 K1) *)
 Definition dead_eol_pad_lines : list N := [223; 224; 225; 226; 230; 233; 238; 330; 331; 332; 333; 334; 335; 336; 337; 439; 445; 450; 475; 477; 479; 480].
 (* neither proved live nor refuted *)
-Definition undecided_tcp_lines : list N := [127; 172; 290; 344; 372; 373; 374; 375; 382; 383; 384; 385; 490; 492; 496; 498; 499; 502; 506; 508; 509; 512; 534; 543].
+Definition undecided_tcp_lines : list N := [313].
 Definition dead_tcp_lines : list N := dead_bad_ttl_lines ++ dead_value_window_lines ++ dead_eol_pad_lines.
+(* sizes of (live, live at distance 1, DeadBadTtl, DeadValueWindow, DeadEolPad, undecided); 199 in all *)
+Definition tcp_partition_sizes : nat * nat * nat * nat * nat * nat := (67, 24, 0, 85, 22, 1)%nat.
 
 (* ---- HTTP ---- *)
-(* proved reachable by the finite abstraction (Spec/ReachHttpSpec.v; walks of at most C13_HTTP_LEAVES = 3000 leaves) *)
-Definition live_http_lines : list N := [617; 618; 657; 659; 663; 676; 696; 697; 706; 711; 715; 721; 727; 739; 740; 744; 749; 753; 761; 765; 769; 773; 777; 778; 782; 794; 798; 815; 819; 823; 839; 865; 866; 867; 868; 872; 873; 881; 882; 890; 891; 895; 896; 897; 905; 906; 920].
+(* proved reachable by the finite abstraction (Spec/ReachHttpSpec.v; walks of at most C13_HTTP_LEAVES = 20000 leaves), split
+   into the shards that Proofs/ReachHttpShardNN.v evaluate in parallel (balanced by number of leaves) *)
+Definition http_shards : list (list N) := [[567]; [698]; [699]; [611]; [626]; [627]; [658]; [617; 711; 773; 794; 798; 823; 839; 873; 882]; [676; 715; 739; 749; 761; 778; 819; 868; 896]; [657; 659; 696; 706; 765; 815; 867; 890; 906; 920]; [618; 663; 740; 782; 866; 881; 895; 897; 905]; [697; 721; 727; 744; 753; 769; 777; 865; 872; 891]].
+Definition live_http_lines : list N := concat http_shards.
 (* dead already for messages that give every literal exactly and the bare token as software string *)
 Definition dead_http_exact_lines : list N := [571; 575; 582; 583; 584; 585; 586; 590; 591; 598; 606; 910; 911].
 (* dead for messages with exact literals whose software string strictly contains the token (Expsw) *)
 Definition dead_http_expsw_lines : list N := [607; 641; 649; 671; 710; 811; 831; 847; 851].
 (* dead for messages in which a header value strictly contains its literal (ValueEquality) *)
-Definition dead_http_value_lines : list N := [636; 640; 645; 672; 688; 700; 701; 705; 725; 726; 731; 748; 757; 790; 802; 803; 835; 843; 919; 921].
-Definition undecided_http_lines : list N := [567; 611; 626; 627; 628; 658; 684; 698; 699; 807].
+Definition dead_http_value_lines : list N := [628; 636; 640; 645; 672; 684; 688; 700; 701; 705; 725; 726; 731; 748; 757; 790; 802; 803; 807; 835; 843; 919; 921].
+Definition undecided_http_lines : list N := [].
 Definition dead_http_lines : list N := dead_http_exact_lines ++ dead_http_expsw_lines ++ dead_http_value_lines.
+(* sizes of (live, dead exact, dead Expsw, dead ValueEquality, undecided); 99 in all *)
+Definition http_partition_sizes : nat * nat * nat * nat * nat := (54, 13, 9, 23, 0)%nat.
